@@ -207,7 +207,8 @@ def run_witness_session(steps, frontend="wsgi", prefix="/", backend="tree", prin
 def run_random_session(seed, prof, frontend="wsgi", prefix="/", backend="tree", audit_git=True, principal="/user/"):
     rng = random.Random(seed)
     s = DavSession(frontend=frontend, prefix=prefix, backend=backend, audit_git=audit_git, principal=principal,
-                   index_threshold=rng.choice([None, None, 0, 1]))
+                   index_threshold=rng.choice([None, None, 0, 1]),
+                   strict=rng.random() >= 0.25, paranoid=rng.random() < 0.2)
     try:
         ics = ics_pool(rng, prof.get("uidheavy", False))
         vcf = vcf_pool()
